@@ -15,6 +15,7 @@
 package ggql
 
 import (
+	"math"
 	"strconv"
 )
 
@@ -39,15 +40,15 @@ func (*int64Scalar) CoerceIn(v interface{}) (interface{}, error) {
 	var err error
 	switch tv := v.(type) {
 	case nil:
-		// remains nil
 	case int64:
-		// ok as is
 	case int32:
 		v = tv
 	case string:
 		var i int64
 		if i, err = strconv.ParseInt(tv, 10, 64); err == nil {
 			v = i
+		} else {
+			v = nil
 		}
 	default:
 		err = newCoerceErr(v, "Int64")
@@ -61,11 +62,10 @@ func (t *int64Scalar) CoerceOut(v interface{}) (interface{}, error) {
 	var err error
 	switch tv := v.(type) {
 	case nil:
-	// remains nil
 	case float32:
-		v = int64(tv)
+		v, err = floatToInt64(float64(tv))
 	case float64:
-		v = int64(tv)
+		v, err = floatToInt64(tv)
 	case int:
 		v = int64(tv)
 	case int8:
@@ -75,8 +75,10 @@ func (t *int64Scalar) CoerceOut(v interface{}) (interface{}, error) {
 	case int32:
 		v = int64(tv)
 	case int64:
-		// ok as is
 	case uint:
+		if math.MaxInt64 < uint64(tv) {
+			return nil, newCoerceErr(tv, "Int64")
+		}
 		v = int64(tv)
 	case uint8:
 		v = int64(tv)
@@ -85,15 +87,30 @@ func (t *int64Scalar) CoerceOut(v interface{}) (interface{}, error) {
 	case uint32:
 		v = int64(tv)
 	case uint64:
+		if math.MaxInt64 < tv {
+			return nil, newCoerceErr(tv, "Int64")
+		}
 		v = int64(tv)
 	case string:
 		var i int64
 		if i, err = strconv.ParseInt(tv, 10, 64); err == nil {
 			v = i
+		} else {
+			v = nil
 		}
 	default:
 		err = newCoerceErr(tv, "Int64")
 		v = nil
 	}
 	return v, err
+}
+
+// floatToInt64 truncates a float that is in the int64 range.
+func floatToInt64(f float64) (interface{}, error) {
+	t := math.Trunc(f)
+	// float64(math.MaxInt64) is 2^63 which is out of range.
+	if math.IsNaN(f) || t < -9223372036854775808.0 || 9223372036854775808.0 <= t {
+		return nil, newCoerceErr(f, "Int64")
+	}
+	return int64(t), nil
 }
